@@ -164,9 +164,9 @@ class Program:
                 vm = re.match(r"(\w+)", part)
                 if not vm:
                     continue
-                em = re.search(r"=\s*(-?\d+)\s*$", part)
+                em = re.search(r"=\s*(-?(?:0b[01_]+|0x[0-9a-fA-F_]+|0o[0-7_]+|\d[\d_]*))\s*$", part)
                 if em and "(" not in part and "{" not in part:
-                    idx = int(em.group(1))
+                    idx = int(em.group(1).replace("_", ""), 0)
                 variants[vm.group(1)] = idx
                 idx += 1
             if name in STD_ENUMS:
@@ -789,7 +789,7 @@ class Interp:
         s = s.strip()
         if s.startswith("&"):
             body = s[1:].lstrip()
-            for pre in ("raw const ", "raw mut ", "mut ", "fake shallow ", "fake "):
+            for pre in ("raw const ", "raw mut ", "mut ", "fake shallow ", "fake ", "(fake shallow) ", "(fake) "):
                 if body.startswith(pre):
                     body = body[len(pre):]
             loc, projs = self.parse_place(body)
